@@ -63,6 +63,11 @@ def gen_case(rng, i, tier):
     if ch > 8:
         N = min(N, 6000)
     part = partition(rng, N)
+    if rng.random() < 0.3:
+        # over-submissions in between (more than vorbis_analysis_buffer handed out): refused, and the encode goes on as if nothing had been asked
+        part = list(part)
+        for _ in range(rng.choice([1, 1, 2])):
+            part.insert(rng.randrange(len(part) + 1), "x%d" % rng.choice([5 * 10 ** 7, 2 * 10 ** 8, 10 ** 9]))
     pagemode = rng.choice([0, 0, 1, 2])
     fill = rng.choice([1, 255, 1000, 4096, 60000])
     sig = rng.choice([0, 1, 2, 3, 4])
